@@ -24,6 +24,7 @@ RULE = ("monomers and aggregates of 2-4 two-level sites with overdamped baths (p
         "relaxation tensor (also combined Redfield-Foerster with a coupling cut-off: an effective Hamiltonian that keeps a remainder coupling). distinct = (system class, N, rounded parameters, axis); non-trivial iff the spectrum has a resolved line: its maximum lies inside the "
         "returned window and exceeds 100x the comparison tolerance.")
 RULE = RULE + " Round-6 workloads: half of the monomers have a non-zero (positive or negative) ground-state energy."
+RULE = RULE + " Round-7 workloads: aggregates are also built with mult=2 and must give the same spectrum."
 ASSUMPTIONS = ["point-wise tolerance 1e-3 of the spectrum's maximum (the library integrates C(t) to g(t) with splines, the oracle uses the closed form)",
                "the natural (radiative) width the library adds for monomers, ~1e-9 1/fs, is below the tolerance and not modelled",
                "uncorrelated site baths: g_a(t) = sum_n |c_na|^4 g_n(t)"]
